@@ -92,7 +92,7 @@ Definition weakL (orig : list item) (s : pstate) : Prop :=
 Definition invL (orig : list item) (s : pstate) : Prop := weakL orig s /\ filled s.
 
 Definition CL (orig : list item) : pcfg :=
-  {| cInv := invL orig; cWeak := weakL orig; cRel := fun _ _ => True; cPanicOk := True |}.
+  {| cInv := invL orig; cWeak := weakL orig; cRel := fun _ _ => True; cPanicOk := True; cFuelOk := True |}.
 
 Lemma CL_rel orig : prel_ok (CL orig).
 Proof. constructor; cbn; auto. intros s [Hw _]. exact Hw. Qed.
